@@ -243,4 +243,61 @@ theorem acC2Kernel_eq (k : Kern) (hv : t.Valid) {size maxPi low high x y b : ℕ
       rfl
     · rw [add_comm, Finset.sum_Ioc_consecutive _ hge hlt.le]
 
+/-! ### C2 over any chain of segments -/
+
+/-- the second primes of level `b` that `C2` can meet in ANY segment: `b < j`, `p j ≤ min(xp / prime, y)`, `xp / prime² < p j` -/
+noncomputable def c2Set (x y b : ℕ) : Finset ℕ :=
+  (Ioc b (π (min (x / Spec.p b / Spec.p b) y))).filter (fun j => x / Spec.p b / (Spec.p b * Spec.p b) < Spec.p j)
+
+/-- the value of `C2` for one (segment, b) -/
+noncomputable def c2Seg (x y b low high : ℕ) : ℤ :=
+  ∑ j ∈ (c2Set x y b).filter (fun j => low ≤ x / Spec.p b / Spec.p j ∧ x / Spec.p b / Spec.p j < high), val (x / Spec.p b) b j
+
+/-- the index interval of `C2` is the segment's slice of `c2Set` -/
+theorem c2_interval_eq {x y b low high : ℕ} (hb1 : 1 ≤ b) (hhigh : 0 < high) :
+    Ioc (π (min (max (x / high / Spec.p b) (max (x / Spec.p b / (Spec.p b * Spec.p b)) (Spec.p b)))
+          (min (x / max low 1 / Spec.p b) (min (x / Spec.p b / Spec.p b) y))))
+        (π (min (x / max low 1 / Spec.p b) (min (x / Spec.p b / Spec.p b) y)))
+      = (c2Set x y b).filter (fun j => low ≤ x / Spec.p b / Spec.p j ∧ x / Spec.p b / Spec.p j < high) := by
+  ext j
+  unfold c2Set
+  rw [mem_Ioc, mem_filter, mem_filter, mem_Ioc]
+  by_cases hj : 1 ≤ j
+  · rw [c2_visit_iff (Spec.p_pos b) hhigh hj, ← Spec.p_le_iff hj, le_min_iff, Spec.p_lt_p_iff hb1 hj]
+    constructor
+    · rintro ⟨⟨h1, h2, h3, h4⟩, h5⟩; exact ⟨⟨⟨h1, h2, h3⟩, h4⟩, h5⟩
+    · rintro ⟨⟨⟨h1, h2, h3⟩, h4⟩, h5⟩; exact ⟨⟨h1, h2, h3, h4⟩, h5⟩
+  · constructor
+    · intro h; omega
+    · intro h; omega
+
+/-- **C2 over any chain of segments**: for EVERY strictly increasing chain `0 < l₁ < … < lₙ` whose top exceeds every leaf value of
+    the level, each segment's kernel call succeeds with clustered + sparse = `c2Seg`, and the segment values add up to the sum over
+    ALL second primes of the level: `Σ_{j ∈ c2Set x y b} (π(x / (p b · p j)) - b + 2)` -/
+theorem acC2_chain_total (k : Kern) (hv : t.Valid) {size maxPi x y b : ℕ} (hb1 : 1 ≤ b)
+    (hyM : y ≤ maxPi) (hmb : maxPi ≤ t.bound) (hm64 : maxPi < 2 ^ 64) (hsz : π y < size)
+    (hpp : Spec.p b * Spec.p b ≤ ITy.u64.maxVal) (hs64 : Nat.sqrt (x / Spec.p b) ≤ ITy.u64.maxVal)
+    (l : List ℕ) (hl : (0 :: l).Pairwise (· < ·))
+    (htb : (0 :: l).getLast (List.cons_ne_nil _ _) ≤ t.bound + 1) (ht64 : (0 :: l).getLast (List.cons_ne_nil _ _) ≤ 2 ^ 64)
+    (htop : ∀ j ∈ c2Set x y b, x / Spec.p b / Spec.p j < (0 :: l).getLast (List.cons_ne_nil _ _)) :
+    (∀ lh ∈ chainPairs (0 :: l), ∃ sc ss : ℤ,
+      acC2Kernel k t size maxPi lh.1 lh.2 (x / max lh.1 1) (x / lh.2) (x / Spec.p b) y b (Spec.p b) = .ok (sc, ss) ∧
+        sc + ss = c2Seg x y b lh.1 lh.2) ∧
+    ((chainPairs (0 :: l)).map fun lh => c2Seg x y b lh.1 lh.2).sum = ∑ j ∈ c2Set x y b, val (x / Spec.p b) b j := by
+  constructor
+  · intro lh hlh
+    obtain ⟨h1, h2⟩ := mem_chainPairs _ hl lh hlh
+    have h3 := le_getLast_of_mem hl (List.cons_ne_nil _ _) h2
+    obtain ⟨sc, ss, e1, e2⟩ := acC2Kernel_eq k hv (low := lh.1) (high := lh.2) (x := x) hb1 (by omega) hyM hmb hm64 hsz hpp hs64
+      (by omega) (by omega)
+    refine ⟨sc, ss, e1, ?_⟩
+    rw [e2, c2_interval_eq hb1 (by omega)]
+    rfl
+  · have hle : (0 :: l).Pairwise (· ≤ ·) := hl.imp (fun h => Nat.le_of_lt h)
+    unfold c2Seg
+    rw [chain_filter_sum (fun j => x / Spec.p b / Spec.p j) (fun j => val (x / Spec.p b) b j) l 0 hle,
+      Finset.filter_true_of_mem]
+    intro j hj
+    exact ⟨Nat.zero_le _, htop j hj⟩
+
 end Pc.Easy
